@@ -89,7 +89,7 @@ func checkLoopIndexOffset(r *Run, p *packages.Package) {
 					r.Pass("C14-R7-loop-index-offset", construct, ix.Pos(), "the loop variable starts at %d", s0)
 					return true
 				}
-				if lowerBounded(info, pathConditions(fd.Body, ix), info.Uses[id], c) {
+				if lowerBounded(info, controlConds(fd.Body, ix), info.Uses[id], c) {
 					r.Pass("C14-R7-loop-index-offset", construct, ix.Pos(), "guarded by a lower bound on %s", id.Name)
 				} else {
 					r.Fail("C14-R7-loop-index-offset", construct, ix.Pos(), "%s is evaluated with %s starting at %d and no guard that keeps it at or above %d: the first iteration indexes the slice at %d and panics, so the structure this function rebuilds cannot be produced at all", exprString(r.Fset, ix), id.Name, s0, c, s0-c)
